@@ -40,6 +40,10 @@ fn underline_guard_ok(sgr: &Sgr, groups: &[&str]) -> bool {
     true
 }
 
+fn sets_underline_style(g: &str) -> bool {
+    matches!(g, "4" | "21")
+}
+
 fn main_check(ctx: &Ctx) -> Outcome {
     let mut out = Outcome::default();
     let quick = ctx.quick();
@@ -126,6 +130,43 @@ fn main_check(ctx: &Ctx) -> Outcome {
     let few: Vec<&WState> = if quick { starts.iter().copied().step_by((starts.len() / 6).max(1)).take(7).collect() } else { starts.clone() };
     let n3 = run_seqs(3, &few, "3-groups");
     out.push_part(json!({"system":"WinconBytes sequences of <=3 groups","sequences":n3,"start_styles":few.len(),"groups":groups.len()}));
+
+    // (C) value sweeps from the default style and from a fully styled state
+    {
+        let sweep = value_sweep_groups();
+        let styled_prefix: &[u8] = b"\x1b[1;3;31;44;58;5;7m";
+        let n = AtomicU64::new(0);
+        sweep.par_iter().for_each(|g| {
+            for prefix in [&b""[..], styled_prefix] {
+                let mut imp = WinconBytes::new();
+                let mut model = RunModel::default();
+                if !prefix.is_empty() && wincon_step(&mut imp, &mut model, prefix).is_err() {
+                    continue;
+                }
+                if sets_underline_style(g) && model.sgr.ul != Ul::None {
+                    continue;
+                }
+                let mut chunk = b"x".to_vec();
+                chunk.extend(seq(&[g.as_str()]));
+                chunk.push(b'y');
+                n.fetch_add(1, Ordering::Relaxed);
+                if let Err(m) = guard(|| wincon_step(&mut imp, &mut model, &chunk)).and_then(|r| r.map(|_| ())) {
+                    let mut v = viol.lock().unwrap();
+                    if v.len() < 300 {
+                        v.push(Finding {
+                            system: "WinconBytes::extract_next/value-sweep".into(),
+                            clause: wincon_clause_of(&m),
+                            case: vec![show(prefix), show(&chunk)],
+                            message: m,
+                            replay: json!({"kind":"seq-from-style","prefix": hex(&[&[0xffu8][..], prefix].concat()), "chunk": hex(&chunk), "chunk_sep": hex(&chunk)}),
+                        });
+                    }
+                }
+            }
+        });
+        evals.fetch_add(n.load(Ordering::Relaxed), Ordering::Relaxed);
+        out.push_part(json!({"system":"WinconBytes value sweeps (all 256 indices / component values, all plain codes 0..=110 inside the statement)","sequences":sweep.len(),"runs":n.load(Ordering::Relaxed)}));
+    }
 
     let mut v = viol.into_inner().unwrap();
     v.sort_by_key(|f| (f.case.iter().map(|c| c.len()).sum::<usize>(), f.key()));
